@@ -45,6 +45,9 @@ pub enum Op {
     /// make an area executable, run `mov eax, imm1` there, overwrite only the immediate (API write or
     /// guest store), run it again: the second run must see the new bytes
     CodePatch { start: u64, off: u64, imm1: u32, imm2: u32, guest: bool },
+    /// C09: the stack made by the most recent init_stack is put under `mask`, a PUSH / CALL / POP / RET is
+    /// executed in its middle, and the mask is lifted again
+    OnInitStack { mask: u32, kind: String },
     /// C07: the machine runs its last NOP and finishes; the register file stays usable ("the state may be
     /// inspected and changed after execution")
     Finish,
@@ -233,6 +236,8 @@ struct Ex<'a> {
     /// structure (entries are dropped when their address stops being mapped)
     flat: std::collections::BTreeMap<u64, u8>,
     finished_on_purpose: bool,
+    /// (start, length) of the area the most recent successful init_stack created
+    last_init_stack: Option<(u64, u64)>,
 }
 
 enum R<T> {
@@ -900,6 +905,22 @@ impl<'a> Ex<'a> {
         self.prot(start, old_prot);
     }
 
+    fn on_init_stack(&mut self, mask: u32, kind: &str) {
+        let (start, len) = match self.last_init_stack {
+            Some(x) if x.1 >= 64 && self.m.areas.iter().filter(|a| a.start == x.0).count() == 1 => x,
+            _ => {
+                self.ctx.probe("on_init_stack_skipped");
+                return;
+            }
+        };
+        self.prot(start, mask);
+        let rsp = (start + len / 2) & !7;
+        // (never the RET that would legitimately end the run)
+        let kind = if kind == "ret" && rsp.wrapping_add(8) == self.ax.verif_stack_top() { "pop" } else { kind };
+        self.guest_stack(kind, rsp, 0x5a5a_5a5a);
+        self.prot(start, 3);
+    }
+
     fn finish(&mut self) {
         let last = self.code_start + self.t.code.len() as u64 - 1;
         let _ = self.ax.reg_write_64(SupportedRegister::RIP, last);
@@ -1142,6 +1163,7 @@ impl<'a> Ex<'a> {
                 self.flat_forget(*start, len);
                 self.m.areas.push(MArea { start: *start, len, prot: 3, data: vec![0; len as usize] });
                 self.m.gpr[6] = self.ax.reg_read_64(SupportedRegister::RSP).unwrap_or(0);
+                self.last_init_stack = Some((*start, len));
             }
             R::Err(_) => {
                 let mut any_free = false;
@@ -1348,7 +1370,7 @@ pub fn run(_prop: &str, sc: &Sc, ctx: &mut Ctx) {
         ctx.dev("C09", "C09|constructor|code_permissions".into(), format!("code area after new(): {:?}", m.areas.iter().map(|a| (a.start, a.len, a.prot)).collect::<Vec<_>>()));
     }
     // C07: initial contents come through the RNG seam: low 32 bits only for GPRs (documented behaviour)
-    let mut ex = Ex { ax, m, t, code_start: sc.code_start, ctx, overlapping: false, flat: std::collections::BTreeMap::new(), finished_on_purpose: false };
+    let mut ex = Ex { ax, m, t, code_start: sc.code_start, ctx, overlapping: false, flat: std::collections::BTreeMap::new(), finished_on_purpose: false, last_init_stack: None };
     for op in sc.ops.iter() {
         ex.ctx.nontrivial = true;
         // asking for more memory than a host has is outside the properties (and ax allocates before it validates)
@@ -1390,6 +1412,7 @@ pub fn run(_prop: &str, sc: &Sc, ctx: &mut Ctx) {
             Op::GuestFetch { addr } => ex.guest_fetch(*addr),
             Op::CodePatch { start, off, imm1, imm2, guest } => ex.code_patch(*start, *off, *imm1, *imm2, *guest),
             Op::Finish => ex.finish(),
+            Op::OnInitStack { mask, kind } => ex.on_init_stack(*mask, kind),
         }
         if ex.ax.verif_finished() && !ex.finished_on_purpose {
             // a template ran into the end of the code: cannot happen by construction
